@@ -1,6 +1,6 @@
 (* C08_lex.v — C08 (accepted iff documented), TEXT LEVEL: what the tokenizer makes of a text. *)
 From Coq Require Import String NArith ZArith List Bool.
-From BP Require Import TotalBase LexBase Lex LexSpec LexCase LexProofs LexClass LexMunch LexOrigin LexTyped.
+From BP Require Import TotalBase LexBase Lex LexSpec LexCase LexProofs LexClass LexMunch LexOrigin LexTyped LexValue.
 From BPGen Require Import GenLexer.
 Import ListNotations.
 
@@ -136,6 +136,16 @@ Theorem C08_lex_str_close_split : forall r body rest,
   str_close r = Some (body, rest) -> r = body ++ 34%N :: rest /\ ~ In NL body.
 Proof. exact str_close_split. Qed.
 Print Assumptions C08_lex_str_close_split.
+
+(* the value of a number token is the Horner value of its digits: int(t.value) / int(t.value, 16) *)
+Theorem C08_lex_int_value : forall maxd ds z, npy_int 10 maxd ds = Ok z -> z = digits_val 10 ds.
+Proof. exact npy_int_dec_value. Qed.
+Print Assumptions C08_lex_int_value.
+
+Theorem C08_lex_hex_value : forall maxd hs z,
+  hs <> [] -> npy_int 16 maxd (48 :: 120 :: hs)%N = Ok z -> z = digits_val 16 hs.
+Proof. exact npy_int_hex_value. Qed.
+Print Assumptions C08_lex_hex_value.
 
 (* the vocabulary of the direct scanner (LexSpec) is the one in lexer.py *)
 Theorem C08_lex_vocabulary :
